@@ -42,23 +42,33 @@ impl Token<'_> {
 struct Parser<'a> {
     tokenizer: Tokenizer<'a>,
     current_token: Token<'a>,
+    /// Token::Illegal doubles as the end-of-input marker. This is set when the tokenizer
+    /// really produced an illegal token, so that it is not mistaken for the end of the input.
+    seen_illegal: bool,
 }
 
 impl<'a> Parser<'a> {
     /// Creates a new Parser from the given input string
     fn new(input: &str) -> Parser {
         let mut tokenizer = Tokenizer::new(input);
-        let current_token = tokenizer.next().unwrap_or(Token::Illegal);
+        let first = tokenizer.next();
+        let seen_illegal = first == Some(Token::Illegal);
+        let current_token = first.unwrap_or(Token::Illegal);
         Parser {
             tokenizer,
             current_token,
+            seen_illegal,
         }
     }
 
     /// Advances the parser (reads the next token)
     #[inline(always)]
     fn advance(&mut self) {
-        self.current_token = self.tokenizer.next().unwrap_or(Token::Illegal);
+        let next = self.tokenizer.next();
+        if next == Some(Token::Illegal) {
+            self.seen_illegal = true;
+        }
+        self.current_token = next.unwrap_or(Token::Illegal);
     }
 
     /// Assert current token is of the given type and skips it
@@ -299,21 +309,28 @@ impl<'a> Parser<'a> {
         // consume string token
         self.advance();
 
-        // read the string, skipping any escape sequences
-        let mut b = value.chars().skip(1);
+        // Since program came from user input we have to replace escape sequences with the
+        // character they stand for: \" \\ \n \t (in one pass, so that an escaped backslash
+        // is never read again as the start of another escape sequence)
         let mut s = String::with_capacity(value.len());
-        for ch in value.chars() {
-            let next = b.next();
-            if ch == '\\' && (next == Some('"') || next == Some('\\')) {
+        let mut chars = value.chars();
+        while let Some(ch) = chars.next() {
+            if ch != '\\' {
+                s.push(ch);
                 continue;
             }
-
-            s.push(ch);
+            match chars.next() {
+                Some('"') => s.push('"'),
+                Some('\\') => s.push('\\'),
+                Some('n') => s.push('\n'),
+                Some('t') => s.push('\t'),
+                Some(other) => {
+                    s.push('\\');
+                    s.push(other);
+                }
+                None => s.push('\\'),
+            }
         }
-
-        // Since program came from user input
-        // We have to replace escape sequences with their actual (single-char) value
-        s = s.replace("\\n", "\n").replace("\\t", "\t");
         Expr::String { value: s }
     }
 
@@ -492,6 +509,13 @@ pub fn parse(program: &str) -> Result<BlockStmt, ParseError> {
 
     while parser.current_token != Token::Illegal {
         block.push(parser.parse_statement()?);
+    }
+
+    // we stopped at the end of the input, or at something that is not a token at all
+    if parser.seen_illegal {
+        return Err(ParseError::SyntaxError(
+            "onverwacht teken in de invoer (of een tekst zonder afsluitend aanhalingsteken)".to_string(),
+        ));
     }
 
     Ok(block)
